@@ -12,7 +12,7 @@ from .. import simfs
 
 INF = float("inf")
 C06_OPS = ("dist", "dist_all", "all_pairs", "prepare", "prepared")
-C07_OPS = ("path",)
+C07_OPS = ("path", "path_multi")
 C10_OPS = ("map", "remap")
 OTHER_OPS = ("add_edge", "reload", "index")
 
@@ -175,7 +175,8 @@ class NetWorld(World):
         if fam == "C06":
             op = r.choice(C06_OPS)
             if op == "dist":
-                return {"op": "dist", "s": s, "a": r.randrange(64), "b": r.randrange(64)}
+                return {"op": "dist", "s": s, "a": r.randrange(64), "b": r.randrange(64),
+                        "as_node": r.random() < 0.2}
             if op == "dist_all":
                 return {"op": "dist_all", "s": s, "a": r.randrange(64)}
             if op == "all_pairs":
@@ -184,7 +185,11 @@ class NetWorld(World):
                 return {"op": "prepare", "s": s, "cut": self._gen_cut(r, m)}
             return {"op": "prepared", "s": s, "a": r.randrange(64), "b": r.randrange(64)}
         if fam == "C07":
-            return {"op": "path", "s": s, "a": r.randrange(64), "b": r.randrange(64)}
+            if r.random() < 0.3:
+                return {"op": "path_multi", "s": s, "a": r.randrange(64),
+                        "targets": [r.randrange(64) for _ in range(r.randint(1, 4))]}
+            return {"op": "path", "s": s, "a": r.randrange(64), "b": r.randrange(64),
+                    "as_node": r.random() < 0.2}
         # C10: needs abs_curv on every edge, an index and prepared distances
         if m["index"] is None or (r.random() < 0.05):
             return {"op": "index", "s": s, "frac": None if r.random() < 0.3 else
@@ -235,6 +240,9 @@ class NetWorld(World):
                 f = (k + 1) / 3
                 mids.append([pa[0] + (pb[0] - pa[0]) * f + r.uniform(-2, 2),
                              pa[1] + (pb[1] - pa[1]) * f + r.uniform(-2, 2)])
+            if mids and r.random() < 0.2:
+                k = r.randrange(len(mids))
+                mids.insert(k, list(mids[k]))          # repeated vertex: a legal zero-length segment
             st.update({"src": a, "tgt": b, "psrc": pa, "ptgt": pb, "mids": mids, "w": None,
                        "o": r.choice([0, 0, 0, 1, -1]), "abs": True})
             return st
@@ -330,6 +338,8 @@ class NetWorld(World):
             m["grown_since_prepare"] = True
         if m["index"] is not None:
             self.probe("addEdge_after_index")
+        if any(p == q for p, q in zip(pts, pts[1:])):
+            self.probe("edge_with_repeated_vertex")
         if w == 0:
             self.probe("zero_weight_edge")
         if a == b:
@@ -351,7 +361,10 @@ class NetWorld(World):
         if m.get("last_source") not in (None, a):
             self.probe("search_from_other_source_back_to_back")
         m["last_source"] = a
-        rv, exc = self.call(net.shortest_distance, a, b)
+        if st.get("as_node"):
+            rv, exc = self.call(net.shortest_distance, net.getNode(a), net.getNode(b))
+        else:
+            rv, exc = self.call(net.shortest_distance, a, b)
         if exc is not None:
             return self._unexpected("C06", exc, "shortest_distance(%s, %s)" % (a, b))
         self.observed(rv)
@@ -475,30 +488,66 @@ class NetWorld(World):
         a, b = self._node(m, st["a"]), self._node(m, st["b"])
         if a == b:
             raise Skip()
-        d = self._fw(m)[(a, b)]
         m["last_source"] = a
-        rv, exc = self.call(net.shortest_path, a, b)
+        if st.get("as_node"):
+            rv, exc = self.call(net.shortest_path, net.getNode(a), net.getNode(b))
+        else:
+            rv, exc = self.call(net.shortest_path, a, b)
         if exc is not None:
             return self._unexpected("C07", exc, "shortest_path(%s, %s)" % (a, b))
+        if self._judge_path(m, a, b, rv, "shortest_path(%s, %s)" % (a, b)):
+            rd, exc = self.call(net.shortest_distance, a, b)
+            d = self._fw(m)[(a, b)]
+            if exc is None and d != INF and not self._deq(m, rd, d):
+                self.fail("C07", "path.distance", "shortest_distance after shortest_path", d, rd)
+
+    def op_path_multi(self, st):
+        """One forward search from a, then several backward reconstructions: the
+        documented two-phase API; every reconstruction reads the labels the
+        single forward pass left on the nodes."""
+        net, m = self._sess(st)
+        a = self._node(m, st["a"])
+        m["last_source"] = a
+        _, exc = self.call(net.run_routing_forward, a)
+        if exc is not None:
+            return self._unexpected("C07", exc, "run_routing_forward(%s)" % a)
+        seen = []
+        for ti in st["targets"]:
+            b = self._node(m, ti)
+            if b == a:
+                continue
+            rv, exc = self.call(net.run_routing_backward, b)
+            if exc is not None:
+                return self._unexpected("C07", exc, "run_routing_backward(%s) after forward(%s)" % (b, a))
+            seen.append(b)
+            if not self._judge_path(m, a, b, rv, "run_routing_backward(%s) after run_routing_forward(%s)" % (b, a)):
+                return
+        if len(seen) > 1:
+            self.probe("several_reconstructions_from_one_search")
+        self.observed(seen)
+
+    def _judge_path(self, m, a, b, rv, where):
+        d = self._fw(m)[(a, b)]
         if d == INF:
             self.probe("target_unreachable")
             self.observed(None)
             if rv is not None:
-                self.fail("C07", "path.unreachable", "no permitted walk %s -> %s but a path is returned" % (a, b),
-                          None, getattr(rv, "path", repr(rv)))
-            return
+                self.fail("C07", "path.unreachable", "%s: no permitted walk %s -> %s but a path is returned"
+                          % (where, a, b), None, getattr(rv, "path", repr(rv)))
+                return False
+            return True
         if rv is None:
-            self.fail("C07", "path.missing", "%s -> %s is reachable (distance %s) but no path is returned" % (a, b, d),
-                      "a path", None)
-            return
+            self.fail("C07", "path.missing", "%s: %s -> %s is reachable (distance %s) but no path is returned"
+                      % (where, a, b, d), "a path", None)
+            return False
         path = list(rv.path)
         self.observed(path)
         coords = [[o.position.getX(), o.position.getY()] for o in rv]
         zero = any(e["w"] == 0 and e["s"] != e["t"] for e in m["edges"])
         if not path or path[0] != a or path[-1] != b:
-            self.fail("C07", "path.ends", "node list must run from %s to %s" % (a, b), [a, "...", b], path,
+            self.fail("C07", "path.ends", "%s: node list must run from %s to %s" % (where, a, b), [a, "...", b], path,
                       zero_weight_edges=zero)
-            return
+            return False
         # dynamic programme over the parallel edges between consecutive nodes
         states = {(0, (tuple(m["nodes"][a]),))}
         for u, v in zip(path, path[1:]):
@@ -515,27 +564,25 @@ class NetWorld(World):
                     for (tw, geo) in states:
                         new.add((tw + e["w"], geo + tuple(tuple(p) for p in gpts[1:])))
             if not new:
-                self.fail("C07", "path.walk", "no edge may be traversed from %s to %s" % (u, v),
+                self.fail("C07", "path.walk", "%s: no edge may be traversed from %s to %s" % (where, u, v),
                           "a permitted edge between consecutive nodes", path, zero_weight_edges=zero)
-                return
+                return False
             if len(new) > 4096:
-                raise Skip()
+                return True          # too many parallel combinations to enumerate: not judged
             states = new
         okw = [geo for (tw, geo) in states if self._deq(m, tw, d)]
         if not okw:
-            self.fail("C07", "path.weight", "weights along %s do not sum to the shortest distance" % path, d,
-                      sorted(set(tw for tw, _ in states))[:5], zero_weight_edges=zero)
-            return
+            self.fail("C07", "path.weight", "%s: weights along %s do not sum to the shortest distance" % (where, path),
+                      d, sorted(set(tw for tw, _ in states))[:5], zero_weight_edges=zero)
+            return False
         if not any([list(p) for p in geo] == coords for geo in okw):
-            self.fail("C07", "path.geometry", "geometry of %s is not the chained, travel-oriented edge polylines" % path,
-                      [list(p) for p in okw[0]], coords, zero_weight_edges=zero)
-            return
-        rd, exc = self.call(net.shortest_distance, a, b)
-        if exc is None and not self._deq(m, rd, d):
-            self.fail("C07", "path.distance", "shortest_distance after shortest_path", d, rd)
+            self.fail("C07", "path.geometry", "%s: geometry of %s is not the chained, travel-oriented edge polylines"
+                      % (where, path), [list(p) for p in okw[0]], coords, zero_weight_edges=zero)
+            return False
         if len(path) > 2:
             self.probe("path_with_3_or_more_nodes")
         self._probe_route(m, a, b)
+        return True
 
     # ------------------------------------------------------------------ reload
     def op_reload(self, st):
